@@ -3400,7 +3400,7 @@ impl DataType {
     pub fn absolute_upper_bound(&self) -> Option<f64> {
         match self {
             DataType::Boolean(b) => Some(if *b.max()? { 1. } else { 0. }),
-            DataType::Integer(i) => Some(f64::max(i.min()?.abs() as f64, i.max()?.abs() as f64)),
+            DataType::Integer(i) => Some(f64::max((*i.min()? as f64).abs(), (*i.max()? as f64).abs())),
             DataType::Float(f) => Some(f64::max(f.min()?.abs(), f.max()?.abs())),
             DataType::Optional(o) => o.data_type().absolute_upper_bound(),
             _ => None,
